@@ -34,7 +34,7 @@ var c16types = []xtype{
 	{"uint8", "uint8", "int", []string{"0", "200", "255"}, true},
 	{"uint32", "uint32", "int", []string{"0", "3000000000", "4294967295"}, true},
 	{"uint64", "uint64", "int", []string{"0", "10", "9223372036854775807", "9223372036854775808", "18446744073709551615"}, true},
-	{"decimal64", "decimal64 { fraction-digits 2; }", "dec", []string{"-2.50", "0.00", "1.50", "99.25"}, true},
+	{"decimal64", "decimal64 { fraction-digits 2; }", "dec", []string{"-2.50", "0.00", "1.50", "99.25", "1.10", "0.30", "-2.20", "100.01", "0.70"}, true},
 	{"string", "string", "str", []string{"b", "abc", "", "Zeta", "é"}, true},
 	{"boolean", "boolean", "bool", []string{"true", "false"}, false},
 	{"enum", "enumeration { enum lo; enum mid; enum hi; }", "enum", []string{"lo", "mid", "hi"}, false},
@@ -299,6 +299,9 @@ func (g *c16gen) body(depth int, keyed bool) ([]*xnode, []operand) {
 
 // YANG of the children; nodes brought in by uses are rendered through their uses statement, augmenting
 // nodes are rendered separately
+// c16noWhen renders the same module without any 'when' (the reference of "behaves as if it had no when")
+var c16noWhen bool
+
 func c16yang(kids []*xnode, indent string, inGroup bool) string {
 	var b strings.Builder
 	for _, n := range kids {
@@ -309,7 +312,11 @@ func c16yang(kids []*xnode, indent string, inGroup bool) string {
 		if strings.HasPrefix(n.origin, "uses:") && !inGroup {
 			if strings.Contains(n.origin, "|first|") {
 				parts := strings.SplitN(n.origin, "|first|", 2)
-				fmt.Fprintf(&b, "%suses %s { when \"%s\"; }\n", indent, strings.TrimPrefix(parts[0], "uses:"), parts[1])
+				if c16noWhen {
+					fmt.Fprintf(&b, "%suses %s;\n", indent, strings.TrimPrefix(parts[0], "uses:"))
+				} else {
+					fmt.Fprintf(&b, "%suses %s { when \"%s\"; }\n", indent, strings.TrimPrefix(parts[0], "uses:"), parts[1])
+				}
 			}
 			continue
 		}
@@ -318,7 +325,7 @@ func c16yang(kids []*xnode, indent string, inGroup bool) string {
 		}
 		when := ""
 		for _, c := range conds {
-			if !c.parentCtx {
+			if !c.parentCtx && !c16noWhen {
 				when += fmt.Sprintf(" when \"%s\";", c.xpath())
 			}
 		}
@@ -333,6 +340,26 @@ func c16yang(kids []*xnode, indent string, inGroup bool) string {
 			fmt.Fprintf(&b, "%scontainer %s {%s\n%s%s}\n", indent, n.name, when, c16yang(n.kids, indent+"  ", false), indent)
 		case "list":
 			fmt.Fprintf(&b, "%slist %s {%s key \"%s\";\n%s%s}\n", indent, n.name, when, n.kids[0].name, c16yang(n.kids, indent+"  ", false), indent)
+		}
+	}
+	return b.String()
+}
+
+// every node rendered in place (nodes from uses and augment as ordinary children), without conditions
+func c16yangFlat(kids []*xnode, indent string) string {
+	var b strings.Builder
+	for _, n := range kids {
+		switch n.kind {
+		case "leaf":
+			semi := ";"
+			if strings.HasSuffix(n.typ.yang, "}") {
+				semi = ""
+			}
+			fmt.Fprintf(&b, "%sleaf %s { type %s%s }\n", indent, n.name, n.typ.yang, semi)
+		case "cont":
+			fmt.Fprintf(&b, "%scontainer %s {\n%s%s}\n", indent, n.name, c16yangFlat(n.kids, indent+"  "), indent)
+		case "list":
+			fmt.Fprintf(&b, "%slist %s { key \"%s\";\n%s%s}\n", indent, n.name, n.kids[0].name, c16yangFlat(n.kids, indent+"  "), indent)
 		}
 	}
 	return b.String()
@@ -501,6 +528,24 @@ func c16goVal(t xtype, text string) interface{} {
 	return text
 }
 
+// another request parameter over the module body
+func c16query(r *core.Rng, kids []*xnode) string {
+	var names []string
+	for _, k := range kids {
+		names = append(names, k.name)
+		if k.kind != "leaf" && len(k.kids) > 0 {
+			names = append(names, k.name+"/"+core.Pick(r, k.kids).name)
+		}
+	}
+	switch r.Intn(3) {
+	case 0:
+		return fmt.Sprintf("depth=%d", 1+r.Intn(3))
+	case 1:
+		return "fields=" + url.QueryEscape(core.Pick(r, names)+";"+core.Pick(r, names))
+	}
+	return "fc.xfields=" + url.QueryEscape(core.Pick(r, names))
+}
+
 // canonical text from the model's tokens
 type c16tr struct {
 	toks []string
@@ -667,6 +712,14 @@ func C16(c *core.Ctx) {
 		y := "module m { namespace \"urn:m\"; prefix m; revision 2020-01-01;\n" + strings.Join(g.groups, "") + c16yang(kids, "  ", false) + augText +
 			"  notification ev {\n" + c16yang(evKids, "    ", false) + "  }\n}\n"
 		m, err := parser.LoadModuleFromString(nil, y)
+		// the same module without any condition: groupings are re-rendered from the nodes they brought in
+		c16noWhen = true
+		yNo := "module m { namespace \"urn:m\"; prefix m; revision 2020-01-01;\n" + c16yangFlat(kids, "  ") + "  notification ev {\n" + c16yang(evKids, "    ", false) + "  }\n}\n"
+		c16noWhen = false
+		mNo, errNo := parser.LoadModuleFromString(nil, yNo)
+		if err == nil && errNo != nil {
+			err = fmt.Errorf("condition-free variant: %w", errNo)
+		}
 		if err != nil {
 			c.Violation(core.Replay{Kind: "harness", Summary: "C16 module does not load: " + err.Error(), Input: y, NoInputFound: true})
 			return
@@ -705,6 +758,41 @@ func C16(c *core.Ctx) {
 				lines = append(lines, "c16 read "+schemaToks+" "+dataToks)
 				pends = append(pends, pend{kind: "read", desc: "read from " + srcKind, impl: got, kids: kids,
 					input: map[string]interface{}{"yang": y, "data": js, "source": srcKind, "output": out}})
+				// conditions that hold must be transparent to every other request parameter: the constrained
+				// read of this module equals the same read of the condition-free module on what is visible
+				if srcKind == "json" && rerr == nil {
+					for qi := 0; qi < 2; qi++ {
+						q := c16query(r, kids)
+						read := func(mod *meta.Module, data string) string {
+							var o string
+							e := safeDo(func() error {
+								src, _ := nodeutil.ReadJSON(data)
+								sel, err := node.NewBrowser(mod, src).Root().Find("?" + q)
+								if err != nil {
+									return err
+								}
+								o, err = nodeutil.WriteJSON(sel)
+								return err
+							})
+							if e != nil {
+								return "error " + short(e.Error())
+							}
+							v, derr := c16decode(o)
+							if derr != nil {
+								return "bad-json"
+							}
+							return "ok " + c16canonJSON(kids, v)
+						}
+						withW, withoutW := read(m, js), read(mNo, out)
+						c.Evaluations++
+						c.Count("combined_with", strings.SplitN(q, "=", 2)[0])
+						if withW != withoutW {
+							c.Violation(core.Replay{Kind: "property-failure", Class: "when-not-transparent-" + strings.SplitN(q, "=", 2)[0],
+								Summary: fmt.Sprintf("Find(?%s): with the conditions %s; the same module without any condition, on the visible data, gives %s", q, short(withW), short(withoutW)),
+								Input:   map[string]interface{}{"yang": y, "yang_without_when": yNo, "data": js, "visible": out, "find": "?" + q}, Impl: withW, Spec: withoutW})
+						}
+					}
+				}
 			}
 			c16edits(c, r, m, y, kids, tree, js, schemaToks, dataToks, func(line string, desc string, input map[string]interface{}, after func(string)) {
 				lines = append(lines, line)
@@ -745,6 +833,36 @@ func C16(c *core.Ctx) {
 					got = "bad-json"
 				} else {
 					got = "ok " + c16canonJSON([]*xnode{n}, v)
+				}
+				if rerr == nil {
+					// the where combined with fields: the fields of exactly the kept entries
+					fq := "fields=" + n.kids[0].name
+					var o1, o2 string
+					e1 := safeDo(func() error {
+						src, _ := nodeutil.ReadJSON(js)
+						sel, err := node.NewBrowser(m, src).Root().Find(path + "&" + fq)
+						if err != nil {
+							return err
+						}
+						o1, err = nodeutil.WriteJSON(sel)
+						return err
+					})
+					e2 := safeDo(func() error {
+						src, _ := nodeutil.ReadJSON(out)
+						sel, err := node.NewBrowser(mNo, src).Root().Find(n.name + "?" + fq)
+						if err != nil {
+							return err
+						}
+						o2, err = nodeutil.WriteJSON(sel)
+						return err
+					})
+					c.Evaluations++
+					c.Count("combined_with", "where+fields")
+					if fmt.Sprint(e1) != fmt.Sprint(e2) || o1 != o2 {
+						c.Violation(core.Replay{Kind: "property-failure", Class: "where-with-fields",
+							Summary: fmt.Sprintf("Find(%s&%s) returns %s %v; the key fields of the entries the where keeps are %s %v", path, fq, short(o1), e1, short(o2), e2),
+							Input:   map[string]interface{}{"yang": y, "data": js, "find": path + "&" + fq}, Impl: o1, Spec: o2})
+					}
 				}
 				nn := n
 				lines = append(lines, "c16 wread "+core.Hex(n.name)+" "+strings.Join(wc.toks(), " ")+" "+schemaToks+" "+dataToks)
